@@ -100,10 +100,11 @@ CHECKS = {
         "the re-read function and the function exported to a child shell (BASH_FUNC_F%%) must produce the same output and status; bash running brush's text must behave like bash running the original source.",
    note="Trusted: TLC (generation, Printer.tla's soundness check), bash 5.2.15. The TLA+ model covers the separator rule only; the other node printers are exercised through the protocol, not modelled. One recorded finding (nested subshells re-read as arithmetic, pinned by a parser snapshot).",
    ref="DESIGN.md section 6 C14"),
- "C15": dict(level=MC, thorough=True, tech="TLA+ Interp.tla predictions replayed through five delivery modes (file, -c, stdin, source, eval) with $LINENO probes; (completeness and cache-transparency parts: Complete.tla / Caches.tla with in-process harness, when present)",
-   text="One model prediction per TLC-generated program must be reproduced by the real shell in every delivery mode, and the $LINENO values of the probes must equal bash's in the same mode "
-        "(and the renderer's line map outside eval / command substitution). Parts (b) input completeness and (c) parse-cache transparency are decided by their own specifications when built (evidence lists which parts ran).",
-   note="Trusted: TLC, renderer, bash 5.2.15. `return` at top level is a different program under `source` (skipped there). One recorded finding: $LINENO inside eval'd text.",
+ "C15": dict(level=MC, thorough=True, tech="three TLA+ specifications: (a) Interp.tla predictions replayed through five delivery modes (file, -c, stdin, source, eval) with $LINENO probes; (b) Complete.tla: line-level machine of open constructs, every valid prefix of <= 3 (thorough 4) lines with its NeedsMore verdict, compared with the implementation's completeness decision called in-process (bash -n audits the model); (c) Caches.tla: LRU cache with the Transparent invariant (and its violation when the key omits the options), every history of <= 4 lookups with eviction instantiated on option-sensitive texts through the four caching parser entry points in one long-lived process",
+   text="(a) one model prediction per TLC-generated program must be reproduced in every delivery mode, and the $LINENO values of the probes must equal bash's in the same mode; (b) the shell must wait for more input exactly on the prefixes "
+        "the line machine leaves open (5157 prefixes in quick); (c) every lookup of every history must return what the same lookup returns as the first lookup of a fresh process (12 of the 36 (entry point, text) pairs are option-sensitive).",
+   note="Trusted: TLC, renderer, bash 5.2.15 (bash -n for (b): an unexpected-end-of-file error means incomplete). `return` at top level is a different program under `source` (skipped there). Two recorded findings: $LINENO inside eval'd text; "
+        "an unparenthesised case pattern inside $( ) ends the substitution.",
    ref="DESIGN.md section 6 C15"),
  "C19": dict(level=MC, thorough=True, tech="TLA+ Spans.tla predicate evaluated by TLC on every recorded highlight_command call (trace validation of a pure function); lines enumerated exhaustively over a metacharacter alphabet plus fragment concatenations, every cursor position",
    text="Spans!SpansOK states the partition property (ordered, contiguous, non-overlapping, character-aligned, covering); every line of <= 3 (thorough 4) characters over an 18-symbol alphabet (quotes, $, parentheses, "
